@@ -523,7 +523,7 @@ theorem search_main {lower upper : ℝ} (h : lower < upper) (tol : ℝ) (max_ite
   obtain ⟨lo', hi', it, eb, c1, c2, i0, i1, _, hw', hres⟩ :=
     bis_result f hf r hr tol max_iter hmi lo hi ⟨b1, b2⟩ fuel hf2
   refine ⟨bisExit lo' hi', ai, it, lo, hi, ?_, ea, b1, b2, a0, a1, i0, i1, hw, hres, ?_⟩
-  · unfold bisectionSearch; rw [ea]; simp only; rw [eb]
+  · unfold bisectionSearch; rw [ea]; simp only [bisInit]; rw [eb]
   · have hdist : |bisExit lo' hi' - r| ≤ (hi' - lo') / 2 := by
       unfold bisExit; rw [abs_le]; constructor <;> linarith
     refine le_trans hdist ?_
@@ -575,7 +575,7 @@ theorem search_root_on_end {lower upper : ℝ} (h : lower < upper) (hend : lower
       have : ¬ lower = r := by intro e'; linarith
       simp [e, this]
   unfold bisectionSearch
-  rw [hno]; simp only
+  rw [hno]; simp only [bisInit]
   rw [bisectLoop_collapsed f r tol htol]
   simp [bisExit]
 
